@@ -69,6 +69,8 @@ def init : Sys :=
 inductive Event
   | create (w t : Nat)
   | write (w n : Nat)         -- write the next `n` bytes (clipped to what is left)
+  | wfail (w n : Nat)         -- the write stores `n` more bytes and then FAILS (ENOSPC, EFBIG ...):
+                              -- WriteFile returns the error, its cleanup closes and removes the temp file
   | close (w : Nat)
   | rename (w : Nat)
   | crash (w : Nat)
@@ -92,6 +94,13 @@ def step (p : Prog) (s : Sys) : Event → Sys
     | .opened t i off =>
       let off' := min (off + n) (p.wdata w).length
       { s with ino := upd s.ino i ((p.wdata w).take off'), wst := upd s.wst w (.opened t i off') }
+    | _ => s
+  | .wfail w n =>
+    match s.wst w with
+    | .opened t i off =>
+      let off' := min (off + n) (p.wdata w).length
+      { s with ino := upd s.ino i ((p.wdata w).take off'), dir := upd s.dir (.tmp t) none,
+               wst := upd s.wst w .dead }
     | _ => s
   | .close w =>
     match s.wst w with
@@ -149,15 +158,21 @@ def tempPrefix : List Char := ['n', 'o', 't', 'a', 't', 'i', 'o', 'n', '-']
 
 /-! ## Part B: executable trace replay -/
 
+/-- one `FileCache.Set` call: which URL, and the CONTENT it stores. Contents are named by the ids
+of their base and delta CRL (delta 0 = no delta CRL), so two calls may store the same bundle, or
+bundles sharing a base. -/
 structure WSpec where
   key : Nat                   -- index of the URL this Set call writes
-  len : Nat                   -- abstract length of the bundle (beyond its identifying head)
+  base : Nat                  -- id of the base CRL (>= 1)
+  delta : Nat                 -- id of the delta CRL, 0 = none
+  len : Nat                   -- abstract size of the entry (beyond its 3-cell header)
   deriving Repr, FromJson, ToJson
 
-inductive Kind | create | write | close | rename | crash | get | probe
+inductive Kind | create | write | wfail | close | rename | crash | get | probe
   deriving DecidableEq, Repr, FromJson, ToJson
 
-/-- one step of the executed trace. `a` = writer (or key for `get`), `b` = byte count for `write`. -/
+/-- one step of the executed trace. `a` = writer (or key for `get`), `b` = byte count for
+`write` / `wfail`. -/
 structure Ev where
   kind : Kind
   a : Nat
@@ -167,10 +182,11 @@ structure Ev where
 inductive RKind | miss | complete | corrupt
   deriving DecidableEq, Repr, FromJson, ToJson
 
-/-- result of one `FileCache.Get`: miss / the complete bundle of Set call `writer` / anything else -/
+/-- result of one `FileCache.Get`: miss / a complete bundle (which base, which delta) / anything else -/
 structure ReadObs where
   kind : RKind
-  writer : Nat                -- meaningful for `complete` only (0 otherwise)
+  base : Nat                  -- meaningful for `complete` only (0 otherwise)
+  delta : Nat
   deriving DecidableEq, Repr, FromJson, ToJson
 
 /-- the cache directory as seen from outside -/
@@ -184,7 +200,8 @@ structure DirObs where
 structure SeenObs where
   key : Nat
   kind : RKind
-  writer : Nat
+  base : Nat
+  delta : Nat
   afterSet : Bool             -- the Get started after some Set for this key had returned
   deriving DecidableEq, Repr, FromJson, ToJson
 
@@ -200,20 +217,28 @@ structure Obs where
   gets : List ReadObs         -- one per `get` event, in trace order
   probes : List DirObs        -- one per `probe` event, in trace order
   seen : List SeenObs         -- free-running: the distinct Get results observed
+  failed : List Nat           -- the Set calls (writer indices, ascending) that returned an error
   deriving DecidableEq, Repr, FromJson, ToJson
 
-/-- bundle of Set call `w`: identified by its head, so distinct calls store distinct bytes -/
-def mkData (w len : Nat) : Bytes := w :: List.replicate len 0
+/-- the stored entry: a self-delimiting encoding (like the JSON file: a proper prefix of it does
+not decode) of the content ids -/
+def mkData (base delta len : Nat) : Bytes := base :: delta :: len :: List.replicate len 0
+
+def specOf (i : Input) (w : Nat) : WSpec :=
+  match i.writers[w]? with
+  | some s => s
+  | none => ⟨0, 0, 0, 0⟩
 
 def prog (i : Input) : Prog :=
-  { wkey := fun w => match i.writers[w]? with | some s => s.key | none => 0
-    wdata := fun w => match i.writers[w]? with | some s => mkData w s.len | none => mkData w 0
+  { wkey := fun w => (specOf i w).key
+    wdata := fun w => mkData (specOf i w).base (specOf i w).delta (specOf i w).len
     rkey := fun r => r }
 
 def Ev.toEvent (e : Ev) : Option Event :=
   match e.kind with
   | .create => some (.create e.a e.a)      -- temp name index = writer index (names are unique)
   | .write => some (.write e.a e.b)
+  | .wfail => some (.wfail e.a e.b)
   | .close => some (.close e.a)
   | .rename => some (.rename e.a)
   | .crash => some (.crash e.a)
@@ -225,21 +250,21 @@ def stepEv (p : Prog) (s : Sys) (e : Ev) : Sys :=
   | some ev => step p s ev
   | none => s
 
-/-- whose complete bundle for key `k` is `b`, if anybody's -/
-def classify (p : Prog) (k : Nat) (b : Bytes) : ReadObs :=
+/-- decoding of a file's bytes, as `Get` does: only a whole entry decodes -/
+def decode (b : Bytes) : ReadObs :=
   match b with
-  | w :: _ => if p.wkey w = k ∧ p.wdata w = b then ⟨.complete, w⟩ else ⟨.corrupt, 0⟩
-  | [] => ⟨.corrupt, 0⟩
+  | base :: delta :: len :: rest => if rest = List.replicate len 0 then ⟨.complete, base, delta⟩ else ⟨.corrupt, 0, 0⟩
+  | _ => ⟨.corrupt, 0, 0⟩
 
-/-- `FileCache.Get` executed without interruption in state `s` (one open + read to EOF) -/
-def getObs (p : Prog) (s : Sys) (k : Nat) : ReadObs :=
+/-- `FileCache.Get` executed without interruption in state `s` (one open + read to EOF + decode) -/
+def getObs (s : Sys) (k : Nat) : ReadObs :=
   match s.dir (.key k) with
-  | none => ⟨.miss, 0⟩
-  | some i => classify p k (s.ino i)
+  | none => ⟨.miss, 0, 0⟩
+  | some i => decode (s.ino i)
 
-def dirObs (p : Prog) (nkeys nw : Nat) (s : Sys) : DirObs :=
+def dirObs (nkeys nw : Nat) (s : Sys) : DirObs :=
   { present := (List.range nkeys).map (fun k => (s.dir (.key k)).isSome)
-    keys := (List.range nkeys).map (getObs p s)
+    keys := (List.range nkeys).map (getObs s)
     temps := ((List.range nw).filter (fun t => (s.dir (.tmp t)).isSome)).length
     others := 0 }
 
@@ -256,13 +281,39 @@ def probeStates (p : Prog) : List Ev → Sys → List Sys
     if e.kind = .probe then s :: probeStates p es s
     else probeStates p es (stepEv p s e)
 
+def isOpened (s : Sys) (w : Nat) : Bool :=
+  match s.wst w with
+  | .opened _ _ _ => true
+  | _ => false
+
+/-- the Set calls whose write failed (while they were writing), in trace order -/
+def failedOf (p : Prog) : List Ev → Sys → List Nat
+  | [], _ => []
+  | e :: es, s =>
+    if e.kind = .wfail && isOpened s e.a then e.a :: failedOf p es (stepEv p s e)
+    else failedOf p es (stepEv p s e)
+
+def insertAsc (x : Nat) : List Nat → List Nat
+  | [] => [x]
+  | y :: ys => if x ≤ y then x :: y :: ys else y :: insertAsc x ys
+
+def sortAsc (l : List Nat) : List Nat := l.foldr insertAsc []
+
+def maxA : List Ev → Nat
+  | [] => 0
+  | e :: es => max e.a (maxA es)
+
+/-- every writer index that occurs anywhere: the listed Set calls and whatever the events mention -/
+def bound (i : Input) : Nat := max i.writers.length (maxA i.events + 1)
+
 def run (i : Input) : Obs :=
-  if i.free then { gets := [], probes := [], seen := [] }
+  if i.free then { gets := [], probes := [], seen := [], failed := [] }
   else
     let p := prog i
-    { gets := (getStates p i.events init).map (fun ks => getObs p ks.2 ks.1)
-      probes := (probeStates p i.events init).map (dirObs p i.nkeys i.writers.length)
-      seen := [] }
+    { gets := (getStates p i.events init).map (fun ks => getObs ks.2 ks.1)
+      probes := (probeStates p i.events init).map (dirObs i.nkeys (bound i))
+      seen := []
+      failed := sortAsc (failedOf p i.events init) }
 
 /-! ### the property over observables
 
@@ -270,58 +321,69 @@ Statement sentence -> clause:
 * "reading a URL yields a cache miss or a complete bundle some writer stored for that URL - never
   truncated, mixed or undecodable", under interleavings: `every_get_...` (Gets placed in the
   trace), `directory_after_each_step...` (a Get of every URL after every step), and
-  `free_running_gets_...` (unscheduled goroutines / processes);
+  `free_running_gets_...` (unscheduled goroutines / processes). "Complete bundle stored for that
+  URL" is judged on CONTENT (base and delta CRL): some Set call for that URL stores exactly it;
 * "after the writing process is killed at any point": the same clauses on traces containing
   `crash` (the probe after the kill: key files absent or complete, `present` consistent with Get);
+  and after a write that FAILED while the writer kept running (`wfail`);
 * "a read that starts after a write for the URL has returned does not yield an older bundle":
-  `get_after_set_returned_is_not_older` (and the same check inside every probe; in free runs:
-  no miss once a Set for the URL has returned);
+  `get_after_set_returned_is_not_older` - on content: for every Set call `w` of the URL whose
+  rename precedes the Get, the bundle returned is what some Set call of the URL stores whose rename
+  is not before `w`'s (so after Set({B,D}) ; Set({B,nil}) only {B,nil} is acceptable, after
+  A ; B ; A only A) - also inside every probe; in free runs: no miss once a Set has returned.
+  `set_reports_an_error_iff_its_write_failed`: a Set that did not store its bundle must not look
+  like a completed write (and a Set whose steps all happened reports success);
 * "leftover temporary files are never mistaken for entries": probes after kills list `temps > 0`
   leftovers while every Get is still a miss / complete bundle, and `others = 0` (nothing but entries
   and notation-* files ever appears); the name-level fact is theorem `temp_never_key`.
-Out of scope (not in the statement / not observable here): power loss (no fsync), Windows, the
-error path of WriteFile (temp file removed when write/close fails), the delta CRL field.
+Out of scope (not in the statement / not observable here): power loss (no fsync), Windows,
+failures of close / rename (not injectable from outside).
 -/
-
-/-- miss, or the complete bundle some Set call stored *for that key* -/
-def okRead (p : Prog) (k : Nat) (o : ReadObs) : Bool :=
-  o.kind == .miss || (o.kind == .complete && p.wkey o.writer == k)
 
 def isDone (s : Sys) (w : Nat) : Bool := s.wst w == .done
 
+def sameContent (x : WSpec) (o : ReadObs) : Bool := x.base == o.base && x.delta == o.delta
+
+/-- miss, or a complete bundle that some Set call stores *for that key* -/
+def okRead (i : Input) (k : Nat) (o : ReadObs) : Bool :=
+  o.kind == .miss ||
+  (o.kind == .complete && (List.range (bound i)).any (fun w => (specOf i w).key == k && sameContent (specOf i w) o))
+
 /-- freshness of a Get executed in (trace-replayed) state `s`: for every Set call `w` for this key
-whose rename happened before, the result is the complete bundle of a Set call for this key whose
-rename is not before `w`'s. (`stamp` = position of the rename among the renames of the trace.) -/
-def freshOK (p : Prog) (nw : Nat) (s : Sys) (k : Nat) (o : ReadObs) : Bool :=
-  (List.range nw).all (fun w =>
-    !(isDone s w && p.wkey w == k) ||
-      (o.kind == .complete && isDone s o.writer && p.wkey o.writer == k && decide (s.stamp w ≤ s.stamp o.writer)))
+whose rename happened before, the result is the complete bundle of a Set call `w'` for this key
+whose rename is not before `w`'s. (`stamp` = position of the rename among the renames of the trace.) -/
+def freshOK (i : Input) (s : Sys) (k : Nat) (o : ReadObs) : Bool :=
+  (List.range (bound i)).all (fun w =>
+    !(isDone s w && (specOf i w).key == k) ||
+      (o.kind == .complete && (List.range (bound i)).any (fun w' =>
+        isDone s w' && (specOf i w').key == k && sameContent (specOf i w') o && decide (s.stamp w ≤ s.stamp w'))))
 
 def all2 {α β} (f : α → β → Bool) : List α → List β → Bool
   | [], [] => true
   | a :: as, b :: bs => f a b && all2 f as bs
   | _, _ => false
 
-def probeOK (p : Prog) (nkeys nw : Nat) (s : Sys) (d : DirObs) : Bool :=
-  d.keys.length == nkeys && d.present.length == nkeys &&
-  all2 (fun k o => okRead p k o) (List.range nkeys) d.keys &&
-  all2 (fun k o => freshOK p nw s k o) (List.range nkeys) d.keys &&
+def probeOK (i : Input) (s : Sys) (d : DirObs) : Bool :=
+  d.keys.length == i.nkeys && d.present.length == i.nkeys &&
+  all2 (fun k o => okRead i k o) (List.range i.nkeys) d.keys &&
+  all2 (fun k o => freshOK i s k o) (List.range i.nkeys) d.keys &&
   all2 (fun (pr : Bool) (o : ReadObs) => pr == (o.kind != .miss)) d.present d.keys &&
   d.others == 0
 
 def clauses (i : Input) (o : Obs) : Clauses :=
   let p := prog i
-  let nw := i.writers.length
   let gs := if i.free then [] else getStates p i.events init
   let ps := if i.free then [] else probeStates p i.events init
   [ ("every_get_is_miss_or_complete_bundle_of_its_url",
-      all2 (fun (ks : Nat × Sys) r => okRead p ks.1 r) gs o.gets),
+      all2 (fun (ks : Nat × Sys) r => okRead i ks.1 r) gs o.gets),
     ("get_after_set_returned_is_not_older",
-      all2 (fun (ks : Nat × Sys) r => freshOK p nw ks.2 ks.1 r) gs o.gets),
+      all2 (fun (ks : Nat × Sys) r => freshOK i ks.2 ks.1 r) gs o.gets),
     ("directory_after_each_step_and_after_kills_absent_or_complete",
-      all2 (fun s d => probeOK p i.nkeys nw s d) ps o.probes),
+      all2 (fun s d => probeOK i s d) ps o.probes),
+    ("set_reports_an_error_iff_its_write_failed",
+      i.free || o.failed == sortAsc (failedOf p i.events init)),
     ("free_running_gets_are_miss_or_complete",
-      o.seen.all (fun x => okRead p x.key ⟨x.kind, x.writer⟩)),
+      o.seen.all (fun x => okRead i x.key ⟨x.kind, x.base, x.delta⟩)),
     ("free_running_get_after_a_set_returned_is_not_a_miss",
       o.seen.all (fun x => !x.afterSet || x.kind != .miss)) ]
 
